@@ -974,16 +974,30 @@ impl fmt::Display for Subscript {
                 upper_bound,
                 stride,
             } => {
+                // `::` is the cast operator, so a bound that starts with a
+                // colon (e.g. the placeholder `:x`) or the second separator
+                // is never written directly after a separator.
+                fn fmt_after_colon(f: &mut fmt::Formatter<'_>, bound: &Expr) -> fmt::Result {
+                    let bound = bound.to_string();
+                    if bound.starts_with(':') {
+                        write!(f, " ")?;
+                    }
+                    write!(f, "{bound}")
+                }
+
                 if let Some(lower) = lower_bound {
                     write!(f, "{lower}")?;
                 }
                 write!(f, ":")?;
                 if let Some(upper) = upper_bound {
-                    write!(f, "{upper}")?;
+                    fmt_after_colon(f, upper)?;
                 }
                 if let Some(stride) = stride {
+                    if upper_bound.is_none() {
+                        write!(f, " ")?;
+                    }
                     write!(f, ":")?;
-                    write!(f, "{stride}")?;
+                    fmt_after_colon(f, stride)?;
                 }
                 Ok(())
             }
